@@ -1,0 +1,13 @@
+//go:build verif
+
+// Contracts for package lib, checked by /verif/govc (comment-only; compiled only with -tags verif).
+package lib
+
+//@ spec func sumVP(vs []*ConsensusValidator, n int) int = n <= 0 ? 0 : sumVP(vs, n-1) + vs[n-1].VotingPower
+
+//@ func NewValidatorSet
+//@   ensures[threshold] result1 == nil ==> result0.MinimumMaj23 == (2*result0.TotalPower)/3 + 1
+//@   ensures[total] result1 == nil ==> result0.TotalPower == sumVP(validators.ValidatorSet, len(validators.ValidatorSet))
+//@   ensures[count] result1 == nil ==> result0.NumValidators == len(validators.ValidatorSet) && result0.ValidatorSet == validators
+//@   ensures[nonzero] result1 == nil ==> result0.TotalPower > 0
+//@   loop 1 invariant[acc] totalPower == sumVP(validators.ValidatorSet, iter) && count == iter && 0 <= iter && iter <= len(validators.ValidatorSet)
